@@ -1532,6 +1532,12 @@ int rtosc_count_printed_arg_vals_of_msg(const char* msg)
         return -1;
 }
 
+//! Returns whether a date (vs a numeric) starts at @p src
+static int is_date(const char* src)
+{
+    return skip_fmt(&src, "%*4d-%*1d%*1d-%*1d%*1d%n");
+}
+
 //! Tries to parse an identifier at @p src and stores it in @p arg
 const char* parse_identifier(const char* src, rtosc_arg_val_t *arg,
                              char* buffer_for_strings,
@@ -1782,8 +1788,9 @@ size_t rtosc_scan_arg_val(const char* src,
                 *buffer_for_strings = 0;
                 ++buffer_for_strings;
             }
-            // "YYYY-" => it's a date
-            else if(src[0] && src[1] && src[2] && src[3] && src[4] == '-')
+            // "YYYY-MM-DD" => it's a date
+            // (same test as in rtosc_skip_next_printed_arg)
+            else if(is_date(src))
             {
                 arg->val.t = 0;
 
